@@ -781,6 +781,246 @@ pub open spec fn publish_matches(p: PublishPacket, v: PubView) -> bool {
         }
 //@end
 
+// =====================================================================================================
+// SUBACK decoding (C03, C01: one reason code per byte of the payload): OASIS 3.9
+// =====================================================================================================
+//@const gneiss-mqtt/src/mqtt/utils.rs PACKET_TYPE_SUBACK
+//@const gneiss-mqtt/src/mqtt/utils.rs SUBACK_FIRST_BYTE
+pub open spec fn suback_reason_value(c: SubackReasonCode) -> u8 {
+    match c {
+        SubackReasonCode::GrantedQos0 => 0u8,
+        SubackReasonCode::GrantedQos1 => 1u8,
+        SubackReasonCode::GrantedQos2 => 2u8,
+        SubackReasonCode::UnspecifiedError => 128u8,
+        SubackReasonCode::ImplementationSpecificError => 131u8,
+        SubackReasonCode::NotAuthorized => 135u8,
+        SubackReasonCode::TopicFilterInvalid => 143u8,
+        SubackReasonCode::PacketIdentifierInUse => 145u8,
+        SubackReasonCode::QuotaExceeded => 151u8,
+        SubackReasonCode::SharedSubscriptionsNotSupported => 158u8,
+        SubackReasonCode::SubscriptionIdentifiersNotSupported => 161u8,
+        SubackReasonCode::WildcardSubscriptionsNotSupported => 162u8,
+    }
+}
+pub open spec fn suback_reason_legal(v: u8) -> bool { v <= 2 || v == 128 || v == 131 || v == 135 || v == 143 || v == 145 || v == 151 || v == 158 || v == 161 || v == 162 }
+impl SubackReasonCode {
+//@fn gneiss-mqtt/src/mqtt/mod.rs try_from props=C03 impl={TryFrom<u8> for SubackReasonCode} as=try_from
+    ensures suback_reason_legal(value) ==> (r matches Ok(c) && suback_reason_value(c) == value), !suback_reason_legal(value) ==> r is Err,
+//@end
+}
+// MQTT 3.1.1 SUBACK return codes (OASIS 3.1.1 section 3.9.3): 0, 1, 2, 0x80
+//@fn gneiss-mqtt/src/mqtt/mod.rs convert_311_encoding_to_suback_reason_code props=C03
+    ensures (value <= 2 || value == 128) ==> (r matches Ok(c) && suback_reason_value(c) == value), !(value <= 2 || value == 128) ==> r is Err,
+//@end
+
+pub open spec fn suback_ids() -> Set<u8> { set![0x1Fu8, 0x26u8] }
+pub open spec fn suback_bag(p: SubackPacket) -> PropBag {
+    PropBag { strs: put(Map::<u8, Seq<char>>::empty(), 0x1Fu8, text(p.reason_string)), users: user_seq(p.user_properties), ..empty_bag() }
+}
+
+//@fn gneiss-mqtt/src/mqtt/suback.rs decode_suback_properties props=C03,C11
+    ensures
+        final(packet).packet_id == old(packet).packet_id, final(packet).reason_codes@ == old(packet).reason_codes@,
+        match parse_props(property_bytes@, suback_ids(), suback_bag(*old(packet))) {
+            Some(bag) => r is Ok && bag_eq(suback_bag(*final(packet)), bag),
+            None => r is Err,
+        },
+//@@loop 0
+        invariant
+            packet.packet_id == old(packet).packet_id, packet.reason_codes@ == old(packet).reason_codes@,
+            parse_props(property_bytes@, suback_ids(), suback_bag(*old(packet))) == parse_props(mutable_property_bytes@, suback_ids(), suback_bag(*packet)),
+        decreases mutable_property_bytes@.len(),
+//@@bodyend_of_loop 0
+            proof {
+                let rest = b0.subrange(1, b0.len() as int);
+                let bag0 = suback_bag(pk0); let bag1 = suback_bag(*packet); let id = b0[0];
+                assert(rest_view == rest);
+                if id == 0x1Fu8 { let x = PropBag { strs: bag0.strs.insert(id, lp_string_text(rest)), ..bag0 }; assert(bag_eq(bag1, x)); assert(bag1 == x); assert(mutable_property_bytes@ =~= rest.subrange(2 + be16(rest), rest.len() as int)); }
+                if id == 0x26u8 {
+                    let rest1 = rest.subrange(2 + be16(rest), rest.len() as int);
+                    let x = PropBag { users: bag0.users.push((lp_string_text(rest), lp_string_text(rest1))), ..bag0 };
+                    assert(bag1.users =~= x.users); assert(bag_eq(bag1, x)); assert(bag1 == x);
+                    assert(mutable_property_bytes@ =~= rest1.subrange(2 + be16(rest1), rest1.len() as int));
+                }
+            }
+//@@at before "let property_key = mutable_property_bytes[0];"
+        let ghost b0 = mutable_property_bytes@;
+        let ghost pk0 = *packet;
+//@@at after "mutable_property_bytes = &mutable_property_bytes[1..];"
+        let ghost rest_view = mutable_property_bytes@;
+//@end
+
+// what a SUBACK says (OASIS 3.9): packet identifier, properties (MQTT 5), one reason code per payload byte
+pub struct SubackView { pub packet_id: int, pub bag: PropBag, pub codes: Seq<u8> }
+// everything but the legality of the individual reason codes
+pub open spec fn suback_head(first_byte: u8, body: Seq<u8>, v5: bool) -> Option<SubackView> {
+    if first_byte != 0x90 || body.len() < 2 { None } else {
+        let r2 = body.subrange(2, body.len() as int);
+        if !v5 { Some(SubackView { packet_id: be16(body), bag: empty_bag(), codes: r2 }) } else {
+            match vbi_len(r2) {
+                None => None,
+                Some(n) => {
+                    let r3 = r2.subrange(n, r2.len() as int);
+                    let plen = vli_val(r2, n as nat) as int;
+                    if plen > r3.len() { None } else {
+                        match parse_props(r3.subrange(0, plen), suback_ids(), empty_bag()) {
+                            Some(bag) => Some(SubackView { packet_id: be16(body), bag, codes: r3.subrange(plen, r3.len() as int) }),
+                            None => None,
+                        }
+                    }
+                }
+            }
+        }
+    }
+}
+pub open spec fn suback_code_legal(v: u8, v5: bool) -> bool { if v5 { suback_reason_legal(v) } else { v <= 2 || v == 128 } }
+pub open spec fn suback_spec(first_byte: u8, body: Seq<u8>, v5: bool) -> Option<SubackView> {
+    match suback_head(first_byte, body, v5) {
+        Some(h) => if forall|i: int| 0 <= i < h.codes.len() ==> suback_code_legal(#[trigger] h.codes[i], v5) { Some(h) } else { None },
+        None => None,
+    }
+}
+pub open spec fn suback_matches(p: SubackPacket, v: SubackView) -> bool {
+    &&& p.packet_id as int == v.packet_id && bag_eq(suback_bag(p), v.bag)
+    // C01: "holding one reason code per requested entry" starts here - one decoded code per payload byte, in order
+    &&& p.reason_codes@.len() == v.codes.len()
+    &&& forall|i: int| 0 <= i < v.codes.len() ==> suback_reason_value(#[trigger] p.reason_codes@[i]) == v.codes[i]
+}
+
+//@fn gneiss-mqtt/src/mqtt/suback.rs decode_suback_packet5 props=C03,C11,C01 desugar
+//@@rewrite "box_packet.as_mut()" => "&mut *box_packet"
+    ensures
+        match suback_spec(first_byte, packet_body@, true) {
+            Some(v) => r matches Ok(b) && (*b matches MqttPacket::Suback(p) && suback_matches(p, v)),
+            None => r is Err,
+        },
+//@@loop 0 iter=it
+            invariant it.seq().unref() =~= payload_bytes@, reason_code_count == payload_bytes@.len(), verif_taken0 == it.index@,
+                suback_head(first_byte, packet_body@, true) matches Some(h) && h.codes == payload_bytes@,
+                packet.reason_codes@.len() == it.index@,
+                forall|j: int| 0 <= j < it.index@ ==> suback_reason_legal(#[trigger] payload_bytes@[j]),
+                forall|j: int| 0 <= j < it.index@ ==> suback_reason_value(#[trigger] packet.reason_codes@[j]) == payload_bytes@[j],
+                it.index@ == it.seq().len() ==> (packet.reason_codes@.len() == payload_bytes@.len()
+                    && (forall|j: int| 0 <= j < payload_bytes@.len() ==> suback_reason_legal(#[trigger] payload_bytes@[j]))
+                    && (forall|j: int| 0 <= j < payload_bytes@.len() ==> suback_reason_value(#[trigger] packet.reason_codes@[j]) == payload_bytes@[j])),
+                packet.packet_id == pk1.packet_id, packet.reason_string == pk1.reason_string, packet.user_properties == pk1.user_properties,
+//@@at bodystart
+    proof { assert(9u8 << 4u8 == 0x90u8) by (bit_vector); assert(PACKET_TYPE_SUBACK == 9u8 && SUBACK_FIRST_BYTE == 0x90u8); }
+//@@at before "mutable_body = decode_vli_into_mutable(mutable_body, &mut properties_length)?;"
+        let ghost r2 = mutable_body@;
+        proof {
+            assert(r2 =~= packet_body@.subrange(2, packet_body@.len() as int));
+            lemma_vbi_len_char(r2);
+            assert(suback_bag(*packet) == empty_bag()) by { assert(bag_eq(suback_bag(*packet), empty_bag())); }
+        }
+//@@at after "mutable_body = decode_vli_into_mutable(mutable_body, &mut properties_length)?;"
+        let ghost r3 = mutable_body@;
+        proof {
+            let n = vbi_len(r2)->Some_0;
+            assert(vbi_len(r2) is Some);
+            assert(r3 =~= r2.subrange(n, r2.len() as int));
+            assert(properties_length == vli_val(r2, n as nat));
+        }
+//@@at after "let payload_bytes = &mutable_body[properties_length..];"
+        proof {
+            assert(properties_bytes@ =~= r3.subrange(0, properties_length as int));
+            assert(payload_bytes@ =~= r3.subrange(properties_length as int, r3.len() as int));
+        }
+//@@at after "packet.reason_codes.reserve(reason_code_count);"
+        let ghost pk1 = *packet;
+        proof {
+            let n = vbi_len(r2)->Some_0;
+            assert(first_byte == 0x90 && packet_body@.len() >= 2);
+            assert(vbi_len(r2) is Some && r3 == r2.subrange(n, r2.len() as int) && properties_length as int == vli_val(r2, n as nat) as int);
+            assert(parse_props(r3.subrange(0, properties_length as int), suback_ids(), empty_bag()) is Some);
+            assert(suback_head(first_byte, packet_body@, true) is Some);
+            assert(suback_head(first_byte, packet_body@, true)->Some_0.codes == payload_bytes@);
+        }
+//@@at before "return Ok(box_packet);"
+        proof {
+            let n = vbi_len(r2)->Some_0;
+            let codes = r3.subrange(properties_length as int, r3.len() as int);
+            assert(first_byte == 0x90 && packet_body@.len() >= 2);
+            assert(vbi_len(r2) is Some && r3 == r2.subrange(n, r2.len() as int) && properties_length as int == vli_val(r2, n as nat) as int);
+            assert(codes == payload_bytes@);
+            assert(parse_props(r3.subrange(0, properties_length as int), suback_ids(), empty_bag()) is Some);
+            assert forall|i: int| 0 <= i < codes.len() implies suback_code_legal(#[trigger] codes[i], true) by { assert(suback_reason_legal(payload_bytes@[i])); }
+            let v = suback_spec(first_byte, packet_body@, true)->Some_0;
+            assert(suback_spec(first_byte, packet_body@, true) is Some);
+            assert(packet.packet_id as int == be16(packet_body@));
+            assert(bag_eq(suback_bag(*packet), v.bag));
+            assert(suback_matches(*packet, v));
+        }
+//@@at before "packet.reason_codes.push(SubackReasonCode::try_from(*payload_byte)?);"
+            let ghost codes_pre = packet.reason_codes@;
+            proof {
+                let i0 = it.index@ as int;
+                assert(it.seq().unref()[i0] == *payload_byte);
+                assert(payload_bytes@[i0] == *payload_byte);
+            }
+//@@at after "packet.reason_codes.push(SubackReasonCode::try_from(*payload_byte)?);"
+            proof {
+                let i0 = it.index@ as int;
+                assert(packet.reason_codes@ == codes_pre.push(packet.reason_codes@[i0]));
+                assert(suback_reason_value(packet.reason_codes@[i0]) == *payload_byte);
+                assert forall|j: int| 0 <= j < i0 + 1 implies suback_reason_value(#[trigger] packet.reason_codes@[j]) == payload_bytes@[j] by {
+                    if j < i0 { assert(packet.reason_codes@[j] == codes_pre[j]); assert(suback_reason_value(codes_pre[j]) == payload_bytes@[j]); }
+                }
+            }
+//@end
+
+//@fn gneiss-mqtt/src/mqtt/suback.rs decode_suback_packet311 props=C03,C11,C01 desugar
+//@@rewrite "box_packet.as_mut()" => "&mut *box_packet"
+    ensures
+        match suback_spec(first_byte, packet_body@, false) {
+            Some(v) => r matches Ok(b) && (*b matches MqttPacket::Suback(p) && suback_matches(p, v)),
+            None => r is Err,
+        },
+//@@loop 0 iter=it
+            invariant it.seq().unref() =~= mutable_body@, reason_code_count == mutable_body@.len(), verif_taken0 == it.index@,
+                suback_head(first_byte, packet_body@, false) matches Some(h) && h.codes == mutable_body@,
+                packet.reason_codes@.len() == it.index@,
+                forall|j: int| 0 <= j < it.index@ ==> (#[trigger] mutable_body@[j] <= 2 || mutable_body@[j] == 128),
+                forall|j: int| 0 <= j < it.index@ ==> suback_reason_value(#[trigger] packet.reason_codes@[j]) == mutable_body@[j],
+                it.index@ == it.seq().len() ==> (packet.reason_codes@.len() == mutable_body@.len()
+                    && (forall|j: int| 0 <= j < mutable_body@.len() ==> (#[trigger] mutable_body@[j] <= 2 || mutable_body@[j] == 128))
+                    && (forall|j: int| 0 <= j < mutable_body@.len() ==> suback_reason_value(#[trigger] packet.reason_codes@[j]) == mutable_body@[j])),
+                packet.packet_id == pk1.packet_id, packet.reason_string == pk1.reason_string, packet.user_properties == pk1.user_properties,
+//@@at bodystart
+    proof { assert(9u8 << 4u8 == 0x90u8) by (bit_vector); assert(PACKET_TYPE_SUBACK == 9u8 && SUBACK_FIRST_BYTE == 0x90u8); }
+//@@at after "packet.reason_codes.reserve(reason_code_count);"
+        let ghost pk1 = *packet;
+        proof { assert(mutable_body@ =~= packet_body@.subrange(2, packet_body@.len() as int)); assert(bag_eq(suback_bag(*packet), empty_bag())); }
+//@@at before "return Ok(box_packet);"
+        proof {
+            let r2 = packet_body@.subrange(2, packet_body@.len() as int);
+            assert(first_byte == 0x90 && packet_body@.len() >= 2);
+            assert(r2 == mutable_body@);
+            assert forall|i: int| 0 <= i < r2.len() implies suback_code_legal(#[trigger] r2[i], false) by { assert(mutable_body@[i] <= 2 || mutable_body@[i] == 128); }
+            let v = suback_spec(first_byte, packet_body@, false)->Some_0;
+            assert(suback_spec(first_byte, packet_body@, false) is Some);
+            assert(packet.packet_id as int == be16(packet_body@));
+            assert(bag_eq(suback_bag(*packet), v.bag));
+            assert(suback_matches(*packet, v));
+        }
+//@@at before "packet.reason_codes.push(convert_311_encoding_to_suback_reason_code(*payload_byte)?);"
+            let ghost codes_pre = packet.reason_codes@;
+            proof {
+                let i0 = it.index@ as int;
+                assert(it.seq().unref()[i0] == *payload_byte);
+                assert(mutable_body@[i0] == *payload_byte);
+            }
+//@@at after "packet.reason_codes.push(convert_311_encoding_to_suback_reason_code(*payload_byte)?);"
+            proof {
+                let i0 = it.index@ as int;
+                assert(packet.reason_codes@ == codes_pre.push(packet.reason_codes@[i0]));
+                assert(suback_reason_value(packet.reason_codes@[i0]) == *payload_byte);
+                assert forall|j: int| 0 <= j < i0 + 1 implies suback_reason_value(#[trigger] packet.reason_codes@[j]) == mutable_body@[j] by {
+                    if j < i0 { assert(packet.reason_codes@[j] == codes_pre[j]); assert(suback_reason_value(codes_pre[j]) == mutable_body@[j]); }
+                }
+            }
+//@end
+
 pub proof fn lemma_pow128(n: nat)
     ensures n == 0 ==> pow128(n) == 1, n == 1 ==> pow128(n) == 128, n == 2 ==> pow128(n) == 16384, n == 3 ==> pow128(n) == 2097152, n == 4 ==> pow128(n) == 268435456,
 {
